@@ -5,11 +5,9 @@
   Principals.Contains, Resources.FindMatch, BucketPolicy.isAllowed, VerifyBucketPolicy,
   ValidatePolicyDocument) against Spec.Glob.G and Spec.Policy.
 
-  After the fixes 4562263 / ade9d47 in /repo the matcher, the statement matchers, the decision and the
-  order-independence of validation hold at full strength.  One statement still does not: a statement
-  lacking Principal, Action or Resource is accepted (`validate:missing-field`); it is kept visible as
-  `def validate_iff_wellformed_full : Prop`, proved as `…_partial` under the decidable hypothesis
-  that excludes exactly that class, and refuted from a concrete witness in Open/C14.lean.
+  After the fixes in /repo (matcher order, exact bucket component, `continue` at `s3:*`, required
+  Principal/Action/Resource members) every statement of the property holds at full strength: there is
+  no `_partial` theorem and nothing in Open/C14.lean.
 -/
 import Vgw.Lemmas.Policy
 import Vgw.Lemmas.ValidateOrder
@@ -117,35 +115,26 @@ theorem validate_order_independent (ord₁ ord₂ : List Bytes → List Bytes) (
     validateDocument ord₁ bucket acct doc = validateDocument ord₂ bucket acct doc :=
   validateDocument_order bucket acct doc ord₁ ord₂ (ordOK_of_perm ord₁ h₁) (ordOK_of_perm ord₂ h₂)
 
-/-- FULL statement: must-accept documents are accepted and must-refuse documents are refused,
-whatever the map order.  FALSE on the current tree (Open.C14.validate_iff_wellformed_full_false):
-signature `validate:missing-field`. -/
-def validate_iff_wellformed_full : Prop :=
-  ∀ (ord : List Bytes → List Bytes) (bucket : Bytes) (acct : Bytes → Bool) (doc : RawDoc),
-    Sane bucket → acct [] = false → (∀ l, (ord l).Perm l) →
-    (WellFormed .strict bucket acct doc → validateDocument ord bucket acct doc = .ok ()) ∧
-    (¬ WellFormed .lenient bucket acct doc → validateDocument ord bucket acct doc ≠ .ok ())
-
-/-- The accept half holds at full strength: every well-formed policy document for the bucket is
-accepted, in every map iteration order. -/
+/-- The accept half: every well-formed policy document for the bucket is accepted, in every map
+iteration order. -/
 theorem validate_accepts_wellformed (ord : List Bytes → List Bytes) (bucket : Bytes)
     (acct : Bytes → Bool) (doc : RawDoc) (hs : Sane bucket) (hacct : acct [] = false)
     (hord : ∀ l, (ord l).Perm l) (hwf : WellFormed .strict bucket acct doc) :
     validateDocument ord bucket acct doc = .ok () :=
   doc_accept ord bucket acct hs hacct (ordOK_of_perm ord hord) doc hwf
 
-/-- Documents that are not valid policies for the bucket — bad JSON, no or empty statement list,
-bad effect, unknown action or principal, `*` mixed with accounts, empty members, resource outside
-the bucket (also `bucket2/*`, `bucket*`), action/resource kind mismatch (also next to `s3:*`) — are
-refused in every map iteration order, PROVIDED no statement lacks its Principal, Action or Resource
-member (`validate:missing-field`, the one class still accepted by the code). -/
-theorem validate_iff_wellformed_partial (ord : List Bytes → List Bytes) (bucket : Bytes)
+/-- Must-accept documents are accepted and must-refuse documents are refused, whatever the map
+order: documents that are not valid policies for the bucket — bad JSON, no or empty statement list,
+bad effect, a statement lacking Principal, Action or Resource, empty members, unknown action or
+principal, `*` mixed with accounts, resource outside the bucket (also `bucket2/*`, `bucket*`),
+action/resource kind mismatch (also next to `s3:*`) — are refused. -/
+theorem validate_iff_wellformed (ord : List Bytes → List Bytes) (bucket : Bytes)
     (acct : Bytes → Bool) (doc : RawDoc) (hs : Sane bucket) (hacct : acct [] = false)
-    (hord : ∀ l, (ord l).Perm l) (h1 : DocHyp StmtNoMissing doc) :
+    (hord : ∀ l, (ord l).Perm l) :
     (WellFormed .strict bucket acct doc → validateDocument ord bucket acct doc = .ok ()) ∧
     (¬ WellFormed .lenient bucket acct doc → validateDocument ord bucket acct doc ≠ .ok ()) :=
   ⟨validate_accepts_wellformed ord bucket acct doc hs hacct hord,
-   fun hn hok => hn (doc_accepted_wellformed ord bucket acct hs (ordOK_of_perm ord hord) doc h1 hok)⟩
+   fun hn hok => hn (doc_accepted_wellformed ord bucket acct hs (ordOK_of_perm ord hord) doc hok)⟩
 
 /-! ## Non-vacuity and regression examples: concrete inputs (tests, not proofs of the properties).
 `a*b?c` = [97,42,98,63,99]; `axxbbybzc` = [97,120,120,98,98,121,98,122,99]. -/
@@ -215,15 +204,24 @@ example : WellFormed .strict exBucket (fun _ => false) exDocOK := by decide
 example : validateDocument id exBucket (fun _ => false) exDocOK = .ok () :=
   validate_accepts_wellformed id _ _ _ (by decide) rfl (fun l => List.Perm.refl l) (by decide)
 example : ¬ WellFormed .lenient exBucket (fun _ => false) exDocBad := by decide
-example : DocHyp StmtNoMissing exDocBad ∧ DocHyp StmtNoMissing exDocPrefix ∧ DocHyp StmtNoMissing exDocOrder := by
-  decide
 example : validateDocument id exBucket (fun _ => false) exDocBad ≠ .ok () :=
-  (validate_iff_wellformed_partial id _ _ _ (by decide) rfl (fun l => List.Perm.refl l) (by decide)).2 (by decide)
+  (validate_iff_wellformed id _ _ _ (by decide) rfl (fun l => List.Perm.refl l)).2 (by decide)
 example : validateDocument id exBucket (fun _ => false) exDocBad = .error .resourceMismatch := by rfl
 example : validateDocument id exBucket (fun _ => false) exDocPrefix = .error .invalidResource := by rfl
 example : validateDocument id exBucket (fun _ => false) exDocOrder = .error .resourceMismatch := by rfl
 example : validateDocument List.reverse exBucket (fun _ => false) exDocOrder = .error .resourceMismatch :=
   (validate_order_independent List.reverse id _ _ _ (fun l => List.reverse_perm l) (fun l => List.Perm.refl l)).trans
     (by rfl)
+
+/-- former witnesses `validate:missing-field`: `{"Statement":[{"Effect":"Allow"}]}` and a statement with
+Principal `*` and Action `s3:*` but no Resource — not well-formed, and refused -/
+def exDocMissing : RawDoc := .stmts [⟨.str allowLit, .missing, .missing, .missing⟩]
+def exDocNoResource : RawDoc := .stmts [⟨.str allowLit, .str starLit, .str allActions, .missing⟩]
+example : ¬ WellFormed .lenient exBucket (fun _ => false) exDocMissing := by decide
+example : ¬ WellFormed .lenient exBucket (fun _ => false) exDocNoResource := by decide
+example : validateDocument id exBucket (fun _ => false) exDocMissing = .error .missingPrincipal := by rfl
+example : validateDocument id exBucket (fun _ => false) exDocNoResource = .error .missingResource := by rfl
+example : validateDocument id exBucket (fun _ => false) exDocMissing ≠ .ok () :=
+  (validate_iff_wellformed id _ _ _ (by decide) rfl (fun l => List.Perm.refl l)).2 (by decide)
 
 end Vgw.Props.C14
